@@ -155,6 +155,14 @@ def k2_queries(num, tier, only=None):
                         q = plan.k2_query(cont, op, n, num, ts, timeout=cfg['k2_timeout'], extra={'KF_TTL0': 1}, tag='_ttl0')
                         q.meta['kf_probe'] = 'ut-ttl0'
                         qs.append(q)
+        # C14: the aging arithmetic with ratios other than 1/2 (0.25 and 0.75 are exact in float, and 1 - 1/2 == 1/2 hides
+        # e.g. a complemented ratio): the dynamically_age step at capacity 2 (the eviction path ages through the same
+        # private routine); the thorough tier repeats the evicting insert as well
+        if num == 14 and cont == 'lfuda':
+            for r4 in (1, 3):
+                for op in (['age'] if tier == 'quick' else ['age', 'insert']):
+                    for p in (14, 99):
+                        qs.append(plan.k2_query('lfuda', op, 2, p, 'yes', timeout=cfg['k2_timeout'], extra={'T_RATIO4': r4}, tag='_ratio%d' % r4))
         # one capacity higher for the cheap methods of the heavier containers, invariant and witness only: a back-pointer
         # slip in erase / lookup paths that needs a free slot *and* two other residents (capacity 3) shows here
         if cont not in LIGHT and tier == 'quick':
@@ -634,7 +642,7 @@ def run_property(num, tier, seed, only=None):
     ev.bounds = {'k2_capacities': cfg['k2_ns'], 'k2_capacities_lru_mru_fifo_rr': cfg['k2_ns_light'], 'k2_histories': 'any length (inductive step from any invariant state)',
                  'k1_capacity': cfg['k1_n'], 'k1_history_length': cfg['k1'], 'per_query_timeout_s': cfg['k2_timeout'],
                  'outside': 'capacities above the listed ones (and insert at capacity 3 for lfuda/ut_map/ut_set, which does not finish within the per-query limit); K1 histories longer than listed; value types other than uint64_t; '
-                            'allocation failure; clocks beyond 2^40 ticks or decreasing; lfuda ratios other than 1/2'}
+                            'allocation failure; clocks beyond 2^40 ticks or decreasing; lfuda ratios other than 1/4, 1/2, 3/4 (1/4 and 3/4: aging step only in the quick tier)'}
     pid = ev.pid
     known, _fixed = load_known()
     qs = (k2_queries(num, tier, only) + k1_queries(num, tier, only) + k5_queries(num, tier, only) + counted_queries(num, tier, only)
